@@ -230,7 +230,7 @@ ticks. -/
 def DNode.tickDb (d : DNode) (pre : Bool) (dl : Option FsH) : DNode :=
   let m := d.n.powerPhase
   if m.power = .on then
-    let m1 := m.scanPhase
+    let m1 := m.scanPhase.redPhase
     let d2 : DNode := { d with n := m1.mapSws Sw.tick }
     let d3 := if m1.dbFixCompletes then d2.dbRestore pre dl else d2
     { d3 with n := d3.n.mapFolders (fun F => if F.deleted then F else F.tick) }
